@@ -11,7 +11,7 @@
 
 package gomavlib
 
-//@ func (*Channel).write
+//@ func (*Channel).write params (ch, what)
 //@   requires ch != nil && ch.ctx != nil
 //@   ensures  [one-attempt] logLen() == 1
 //@   ensures  [own-queue-only] (logIs(0, "send", "chWrite") && logArg(0, 0) == what) || logIs(0, "recv", "ctx.Done") || logCallee(0, "select.default")
@@ -19,7 +19,7 @@ package gomavlib
 //@   canary   logIs(0, "send", "chWrite")
 //@   modifies ghost:log
 
-//@ func (*Channel).runReader
+//@ func (*Channel).runReader params (ch) returns (err)
 //@   ghostlog (*gomavlib.Node).pushEvent, (*gomavlib.nodeStreamRequest).onEventFrame, (*frame.Reader).Read
 //@   requires ch != nil && ch.node != nil && ch.frameWriter != nil && ch.frameWriter.Reader != nil
 //@   ensures  [returns-only-fatal-error] err != nil && !dynIs(err, "frame.ReadError")
@@ -41,7 +41,7 @@ package gomavlib
 //@                    (logRetErr(0) != nil ==> freshPtr(logArg(1, 1).(*EventParseError)))
 //@   modifies ghost:log
 
-//@ func (*Channel).runWriter
+//@ func (*Channel).runWriter params (ch, writerTerminate) returns (err)
 //@   ghostlog (*streamwriter.Writer).Write, (*frame.Writer).Write
 //@   requires ch != nil && ch.streamWriter != nil && ch.frameWriter != nil && ch.frameWriter.Writer != nil
 //@   ensures  [stops-when-told-or-on-write-error] (err == nil && logIs(logLen()-1, "recv", "writerTerminate")) ||
@@ -55,7 +55,7 @@ package gomavlib
 //@   loop 0 body-ensures [nothing-else-written] logLen() == 2 ==> logCallee(1, "(*streamwriter.Writer).Write") || logCallee(1, "(*frame.Writer).Write")
 //@   modifies ghost:log
 
-//@ func (*Channel).run
+//@ func (*Channel).run params (ch)
 //@   ghostlog (*gomavlib.Node).pushEvent, (*gomavlib.Node).closeChannel
 //@   let PE = logFind("(*gomavlib.Node).pushEvent", "", 0)
 //@   let R0 = logFind("recv", "", 0)
@@ -80,17 +80,17 @@ package gomavlib
 //@   canary   !logIs(R0, "recv", "ctx.Done")
 //@   modifies ghost:log
 
-//@ func (*Node).pushEvent
+//@ func (*Node).pushEvent params (n, evt)
 //@   requires n != nil
 //@   ensures  [one-attempt] logLen() == 1 && ((logIs(0, "send", "chEvent") && logArg(0, 0) == any(evt)) || logIs(0, "recv", "terminate"))
 //@   modifies ghost:log
 
-//@ func (*Node).closeChannel
+//@ func (*Node).closeChannel params (n, ch)
 //@   requires n != nil
 //@   ensures  logLen() == 1 && (logIs(0, "send", "chCloseChannel") || logIs(0, "recv", "terminate"))
 //@   modifies ghost:log
 
-//@ func (*Node).newChannel
+//@ func (*Node).newChannel params (n, ch)
 //@   ghostlog (*gomavlib.Channel).close
 //@   requires n != nil
 //@   ensures  (logLen() == 1 && logIs(0, "send", "chNewChannel")) ||
@@ -99,7 +99,7 @@ package gomavlib
 
 // ---------------------------------------------------------------- reconnecting endpoints (C14)
 
-//@ func (*endpointClient).connect returns (conn, err)
+//@ func (*endpointClient).connect params (e) returns (conn, err)
 //@   ghostlog (*net.Dialer).DialContext, timednetconn.New
 //@   requires e != nil && e.node != nil && e.conf != nil
 //@   ensures  [own-timeout-for-every-attempt] logCallee(0, "context.WithTimeout") && logArgDuration(0, 1) == e.node.ReadTimeout &&
@@ -109,7 +109,7 @@ package gomavlib
 //@              logArgDuration(3, 0) == e.node.IdleTimeout && logArgDuration(3, 1) == e.node.WriteTimeout
 //@   modifies ghost:log
 
-//@ func (*endpointClient).provide returns (label, conn, err)
+//@ func (*endpointClient).provide params (e) returns (label, conn, err)
 //@   ghostlog (*gomavlib.endpointClient).connect, (*gomavlib.endpointClient).label
 //@   requires e != nil && e.ctx != nil
 //@   ensures  [channel-or-terminated] (err == nil && conn != nil) || (err == errTerminated && conn == nil)
@@ -121,7 +121,7 @@ package gomavlib
 //@                    logCallee(1, "time.After") && logArgDuration(1, 0) == reconnectPeriod && logIs(2, "recv", "time.After")
 //@   modifies e.first, ghost:log
 
-//@ func (*endpointSerial).provide returns (label, conn, err)
+//@ func (*endpointSerial).provide params (e) returns (label, conn, err)
 //@   ghostlog (*gomavlib.endpointSerial).connect
 //@   requires e != nil && e.ctx != nil
 //@   ensures  [channel-or-terminated] (err == nil && conn != nil) || (err == errTerminated && conn == nil)
@@ -133,7 +133,7 @@ package gomavlib
 //@                    logCallee(1, "time.After") && logArgDuration(1, 0) == reconnectPeriod && logIs(2, "recv", "time.After")
 //@   modifies e.first, ghost:log
 
-//@ func (*endpointServer).provide returns (label, conn, err)
+//@ func (*endpointServer).provide params (e) returns (label, conn, err)
 //@   ghostlog net.Listener.Accept, timednetconn.New+contract, fmt.Sprintf
 //@   requires e != nil && e.node != nil && e.listener != nil && e.conf != nil
 //@   ensures  [channel-or-terminated] (err == nil && conn != nil) || (err == errTerminated && conn == nil)
@@ -142,7 +142,7 @@ package gomavlib
 //@              logArgDuration(logLen()-1, 0) == e.node.IdleTimeout && logArgDuration(logLen()-1, 1) == e.node.WriteTimeout
 //@   modifies ghost:log
 
-//@ func (*Channel).initialize
+//@ func (*Channel).initialize params (ch) returns (err)
 //@   ghostlog gomavlib.randomByte
 //@   requires ch != nil && ch.node != nil && ch.rwc != nil
 //@   ensures  [queues-allocated] err == nil ==> ch.done != nil && ch.chWrite != nil && ch.ctx != nil
@@ -162,7 +162,7 @@ package gomavlib
 //@   ensures  [bad-config-refused] ch.node.OutSystemID < 1 || (ch.node.OutKey != nil && ch.node.OutVersion != V2) ==> err != nil
 //@   modifies ch.frameWriter, ch.streamWriter, ch.ctx, ch.ctxCancel, ch.chWrite, ch.done, ghost:log
 
-//@ func (*channelProvider).run
+//@ func (*channelProvider).run params (cp)
 //@   ghostlog (*gomavlib.Node).newChannel, gomavlib.Endpoint.oneChannelAtAtime
 //@   requires cp != nil && cp.node != nil && cp.endpoint != nil && specEndpointReady(cp.endpoint)
 //@   ensures  [stops-only-on-termination] logCallee(logLen()-1, "sync.WaitGroup.Done")
@@ -172,7 +172,7 @@ package gomavlib
 //@   loop 0 modifies *cp.endpoint
 //@   modifies ghost:log, *cp.endpoint
 
-//@ func (*endpointUDPBroadcast).provide returns (label, conn, err)
+//@ func (*endpointUDPBroadcast).provide params (e) returns (label, conn, err)
 //@   ghostlog (*gomavlib.endpointUDPBroadcast).label
 //@   requires e != nil && e.node != nil
 //@   ensures  (err == nil && conn != nil) || (err == errTerminated && conn == nil)
@@ -181,7 +181,7 @@ package gomavlib
 //@              conn.(*wrappedPacketConn).broadcastAddr == e.broadcastAddr
 //@   modifies ghost:log
 
-//@ func (*wrappedPacketConn).Write returns (n, err)
+//@ func (*wrappedPacketConn).Write params (r, p) returns (n, err)
 //@   requires r != nil && r.pc != nil
 //@   ensures  [armed-first] logLen() >= 1 && logCallee(0, "net.Conn.SetWriteDeadline") && logDeadlineFresh(0, r.writeTimeout)
 //@   ensures  [deadline-error] logErr(0) != nil ==> logLen() == 1 && n == 0 && err == logErr(0)
@@ -189,14 +189,14 @@ package gomavlib
 //@              logArg(1, 1) == any(r.broadcastAddr) && n == logRet(1) && err == logErr(1)
 //@   modifies ghost:log
 
-//@ func (*wrappedPacketConn).Read returns (n, err)
+//@ func (*wrappedPacketConn).Read params (r, p) returns (n, err)
 //@   requires r != nil && r.pc != nil
 //@   ensures  [one-datagram-no-deadline] logLen() == 1 && logCallee(0, "net.Conn.ReadFrom") && n == logRet(0) && err == logErr(0)
 //@   modifies p[:], ghost:log
 
 // ---------------------------------------------------------------- node loop: write fan-out (C11)
 
-//@ func (*Node).run
+//@ func (*Node).run params (n)
 //@   let T = logFind("recv", "terminate", 0)
 //@   ghostlog (*gomavlib.Channel).write, (*gomavlib.Channel).start, (*gomavlib.Channel).close, (*gomavlib.channelProvider).close, (*gomavlib.nodeHeartbeat).close, (*gomavlib.nodeStreamRequest).close
 //@   requires n != nil && n.done != nil && n.chEvent != nil && n.channels != nil
@@ -234,7 +234,7 @@ package gomavlib
 // rvField(m, "X"): value written with reflect SetUint into field X of the message m built by reflect.New;
 // rvGet-style reads of a received message are uninterpreted functions of that message.
 
-//@ func (*nodeStreamRequest).onEventFrame
+//@ func (*nodeStreamRequest).onEventFrame params (sr, evt)
 //@   ghostlog (*gomavlib.Node).WriteMessageTo, (*gomavlib.Node).pushEvent
 //@   let MSG  = evt.Frame.GetMessage()
 //@   let SYS  = evt.Frame.GetSystemID()
@@ -270,7 +270,7 @@ package gomavlib
 //@   canary   REQ
 //@   modifies *sr.lastRequests, ghost:log
 
-//@ func (*nodeHeartbeat).run
+//@ func (*nodeHeartbeat).run params (h)
 //@   ghostlog (*gomavlib.Node).WriteMessageAll
 //@   requires h != nil && h.node != nil && h.node.Dialect != nil && h.msgHeartbeat != nil && h.done != nil
 //@   ensures  [stops-only-on-termination] logIs(logLen()-3, "recv", "terminate") && logCallee(logLen()-2, "time.Ticker.Stop") && logIs(logLen()-1, "close", "done")
@@ -288,7 +288,7 @@ package gomavlib
 
 // ---------------------------------------------------------------- FixFrame (C08)
 
-//@ func (*Node).FixFrame
+//@ func (*Node).FixFrame params (n, fr) returns (err)
 //@   let M0 = old(frame.SpecFrameMessage(fr))
 //@   requires n != nil && fr != nil && frame.SpecFrameMessage(fr) != nil
 //@   requires frame.SpecIsRaw(frame.SpecFrameMessage(fr)) ==> frame.SpecRawPayloadLen(fr) <= 255
@@ -300,7 +300,7 @@ package gomavlib
 
 // ---------------------------------------------------------------- node configuration (C09, C06)
 
-//@ func (*Node).Initialize
+//@ func (*Node).Initialize params (n) returns (err)
 //@   ghostlog gomavlib.EndpointConf.init, (*gomavlib.channelProvider).initialize, (*gomavlib.channelProvider).start, (*gomavlib.channelProvider).close, (*gomavlib.nodeHeartbeat).initialize, (*gomavlib.nodeStreamRequest).initialize, (*gomavlib.Node).Initialize$1, (*dialect.ReadWriter).Initialize
 //@   requires n != nil
 //@   requires forall j int :: 0 <= j && j < len(n.Endpoints) ==> n.Endpoints[j] != nil
@@ -357,7 +357,7 @@ package gomavlib
 
 // ---------------------------------------------------------------- node write API (C11, C09, C08): one request per call
 
-//@ func (*Node).encodeFrame
+//@ func (*Node).encodeFrame params (n, fr) returns (err)
 //@   ghostlog (*message.ReadWriter).Write+contract
 //@   let M0 = old(frame.SpecFrameMessage(fr))
 //@   requires n != nil && fr != nil && frame.SpecFrameMessage(fr) != nil
@@ -373,7 +373,7 @@ package gomavlib
 //@   modifies ghost:log, *frame.SpecMessageField(fr) when !frame.SpecIsRaw(old(frame.SpecFrameMessage(fr))),
 //@            *frame.SpecChecksumField(fr) when !frame.SpecIsRaw(old(frame.SpecFrameMessage(fr)))
 
-//@ func (*Node).encodeMessage returns (out, err)
+//@ func (*Node).encodeMessage params (n, msg) returns (out, err)
 //@   ghostlog (*message.ReadWriter).Write
 //@   requires n != nil && msg != nil
 //@   ensures  [raw-message-passes-unchanged] dynIs(msg, "*message.MessageRaw") ==> err == nil && out == msg && logLen() == 0
@@ -387,7 +387,7 @@ package gomavlib
 //@   ensures  [result-xor-error] (err == nil) == (out != nil)
 //@   modifies ghost:log
 
-//@ func (*Node).WriteMessageTo
+//@ func (*Node).WriteMessageTo params (n, channel, m) returns (err)
 //@   ghostlog (*gomavlib.Node).encodeMessage
 //@   requires n != nil && m != nil
 //@   ensures  [encoding-error-nothing-sent] logRetErr(0) != nil ==> err == logRetErr(0) && logLen() == 1
@@ -396,7 +396,7 @@ package gomavlib
 //@   ensures  [encodes-what-it-was-given] logCallee(0, "(*gomavlib.Node).encodeMessage") && logArg(0, 1) == any(m)
 //@   modifies ghost:log
 
-//@ func (*Node).WriteMessageAll
+//@ func (*Node).WriteMessageAll params (n, m) returns (err)
 //@   ghostlog (*gomavlib.Node).encodeMessage
 //@   requires n != nil && m != nil
 //@   ensures  [encoding-error-nothing-sent] logRetErr(0) != nil ==> err == logRetErr(0) && logLen() == 1
@@ -405,7 +405,7 @@ package gomavlib
 //@   ensures  [encodes-what-it-was-given] logCallee(0, "(*gomavlib.Node).encodeMessage") && logArg(0, 1) == any(m)
 //@   modifies ghost:log
 
-//@ func (*Node).WriteMessageExcept
+//@ func (*Node).WriteMessageExcept params (n, exceptChannel, m) returns (err)
 //@   ghostlog (*gomavlib.Node).encodeMessage
 //@   requires n != nil && m != nil
 //@   ensures  [encoding-error-nothing-sent] logRetErr(0) != nil ==> err == logRetErr(0) && logLen() == 1
@@ -415,7 +415,7 @@ package gomavlib
 //@   ensures  [encodes-what-it-was-given] logCallee(0, "(*gomavlib.Node).encodeMessage") && logArg(0, 1) == any(m)
 //@   modifies ghost:log
 
-//@ func (*Node).WriteFrameTo
+//@ func (*Node).WriteFrameTo params (n, channel, fr) returns (err)
 //@   ghostlog (*gomavlib.Node).encodeFrame
 //@   requires n != nil && fr != nil
 //@   ensures  [encoding-error-nothing-sent] logRetErr(0) != nil ==> err == logRetErr(0) && logLen() == 1
@@ -424,7 +424,7 @@ package gomavlib
 //@   ensures  [encodes-what-it-was-given] logCallee(0, "(*gomavlib.Node).encodeFrame") && logArg(0, 1) == any(fr)
 //@   modifies ghost:log
 
-//@ func (*Node).WriteFrameAll
+//@ func (*Node).WriteFrameAll params (n, fr) returns (err)
 //@   ghostlog (*gomavlib.Node).encodeFrame
 //@   requires n != nil && fr != nil
 //@   ensures  [encoding-error-nothing-sent] logRetErr(0) != nil ==> err == logRetErr(0) && logLen() == 1
@@ -433,7 +433,7 @@ package gomavlib
 //@   ensures  [encodes-what-it-was-given] logCallee(0, "(*gomavlib.Node).encodeFrame") && logArg(0, 1) == any(fr)
 //@   modifies ghost:log
 
-//@ func (*Node).WriteFrameExcept
+//@ func (*Node).WriteFrameExcept params (n, exceptChannel, fr) returns (err)
 //@   ghostlog (*gomavlib.Node).encodeFrame
 //@   requires n != nil && fr != nil
 //@   ensures  [encoding-error-nothing-sent] logRetErr(0) != nil ==> err == logRetErr(0) && logLen() == 1
@@ -445,34 +445,34 @@ package gomavlib
 
 // ---------------------------------------------------------------- lifecycle (C13, C14)
 
-//@ func (*Node).Close
+//@ func (*Node).Close params (n)
 //@   requires n != nil && n.terminate != nil
 //@   ensures  [terminate-then-wait-for-the-node-loop] logLen() == 2 && logIs(0, "close", "terminate") && logIs(1, "recv", "done")
 //@   modifies ghost:log
 
-//@ func (*Channel).start
+//@ func (*Channel).start params (ch)
 //@   requires ch != nil && ch.node != nil
 //@   ensures  [registered-before-started] ch.running && logLen() == 2 && logCallee(0, "sync.WaitGroup.Add") && logGo(1, "(*gomavlib.Channel).run")
 //@   modifies ch.running, ghost:log
 
-//@ func (*Channel).close
+//@ func (*Channel).close params (ch)
 //@   requires ch != nil && ch.rwc != nil
 //@   ensures  [cancelled-first] logLen() >= 1 && logCallee(0, "call:func-value")
 //@   ensures  [never-started-channel-closes-its-transport] !old(ch.running) ==> logLen() == 2 && logCallee(1, "io.Closer.Close")
 //@   ensures  [running-channel-is-closed-by-its-own-routine] old(ch.running) ==> logLen() == 1
 //@   modifies ghost:log
 
-//@ func (*channelProvider).initialize
+//@ func (*channelProvider).initialize params (cp) returns (err)
 //@   requires cp != nil
 //@   ensures  err == nil && cp.terminate != nil && chanCap(cp.terminate) == 0
 //@   modifies cp.terminate
 
-//@ func (*channelProvider).start
+//@ func (*channelProvider).start params (cp)
 //@   requires cp != nil && cp.node != nil
 //@   ensures  [registered-before-started] logLen() == 2 && logCallee(0, "sync.WaitGroup.Add") && logGo(1, "(*gomavlib.channelProvider).run")
 //@   modifies ghost:log
 
-//@ func (*channelProvider).close
+//@ func (*channelProvider).close params (cp)
 //@   ghostlog gomavlib.Endpoint.close
 //@   requires cp != nil && cp.endpoint != nil && cp.terminate != nil
 //@   ensures  [terminate-then-close-the-endpoint] logLen() == 2 && logIs(0, "close", "terminate") && logCallee(1, "gomavlib.Endpoint.close")
@@ -491,7 +491,7 @@ package gomavlib
 //@   loop 0 invariant -1 <= i && i < len(h.node.Dialect.Messages)
 //@   loop 0 invariant forall j int :: 0 <= j && j <= i ==> h.node.Dialect.Messages[j].GetID() != 0
 
-//@ func (*nodeHeartbeat).initialize
+//@ func (*nodeHeartbeat).initialize params (h) returns (err)
 //@   ghostlog (*message.ReadWriter).Initialize+contract, (*message.ReadWriter).CRCExtra+contract
 //@   requires h != nil && h.node != nil
 //@   requires h.node.Dialect != nil ==> (forall j int :: 0 <= j && j < len(h.node.Dialect.Messages) ==> h.node.Dialect.Messages[j] != nil && !dynIs(h.node.Dialect.Messages[j], "*message.MessageRaw"))
@@ -530,7 +530,7 @@ package gomavlib
 //@   loop 0 invariant -1 <= i && i < len(sr.node.Dialect.Messages)
 //@   loop 0 invariant forall j int :: 0 <= j && j <= i ==> sr.node.Dialect.Messages[j].GetID() != 66
 
-//@ func (*nodeStreamRequest).initialize
+//@ func (*nodeStreamRequest).initialize params (sr) returns (err)
 //@   ghostlog (*message.ReadWriter).Initialize+contract, (*message.ReadWriter).CRCExtra+contract
 //@   requires sr != nil && sr.node != nil
 //@   requires sr.node.Dialect != nil ==> (forall j int :: 0 <= j && j < len(sr.node.Dialect.Messages) ==> sr.node.Dialect.Messages[j] != nil && !dynIs(sr.node.Dialect.Messages[j], "*message.MessageRaw"))
@@ -562,7 +562,7 @@ package gomavlib
 //@               (old(mapHasKey(sr.lastRequests, logArg(0, 1).(streamNode))) && timeSub(now, old(sr.lastRequests[logArg(0, 1).(streamNode)])) < 30*time.Second))
 //@   loop 0 modifies *sr.lastRequests
 
-//@ func (*nodeStreamRequest).run
+//@ func (*nodeStreamRequest).run params (sr)
 //@   requires sr != nil && sr.lastRequests != nil && sr.done != nil
 //@   ensures  [stops-only-on-termination] logIs(logLen()-3, "recv", "terminate") && logCallee(logLen()-2, "time.Ticker.Stop") && logIs(logLen()-1, "close", "done")
 //@   ensures  [sweeps-every-30-seconds] logCallee(0, "time.NewTicker") && logArgDuration(0, 0) == 30*time.Second
@@ -570,39 +570,39 @@ package gomavlib
 //@   loop 0 modifies *sr.lastRequests
 //@   modifies *sr.lastRequests, ghost:log
 
-//@ func (*nodeStreamRequest).close
+//@ func (*nodeStreamRequest).close params (sr)
 //@   requires sr != nil && sr.terminate != nil
 //@   ensures  logLen() == 2 && logIs(0, "close", "terminate") && logIs(1, "recv", "done")
 //@   modifies ghost:log
 
-//@ func (*nodeHeartbeat).close
+//@ func (*nodeHeartbeat).close params (h)
 //@   requires h != nil && h.terminate != nil
 //@   ensures  logLen() == 2 && logIs(0, "close", "terminate") && logIs(1, "recv", "done")
 //@   modifies ghost:log
 
 // ---------------------------------------------------------------- endpoints: who gets one channel at a time, readiness after initialize (C14)
 
-//@ func (*endpointClient).oneChannelAtAtime
+//@ func (*endpointClient).oneChannelAtAtime params (e) returns (res)
 //@   ensures  [clients-have-one-channel-at-a-time] res
 //@   modifies nothing
 
-//@ func (*endpointSerial).oneChannelAtAtime
+//@ func (*endpointSerial).oneChannelAtAtime params (e) returns (res)
 //@   ensures  [serial-has-one-channel-at-a-time] res
 //@   modifies nothing
 
-//@ func (*endpointServer).oneChannelAtAtime
+//@ func (*endpointServer).oneChannelAtAtime params (e) returns (res)
 //@   ensures  [servers-give-every-peer-its-own-channel] !res
 //@   modifies nothing
 
-//@ func (*endpointCustom).oneChannelAtAtime
+//@ func (*endpointCustom).oneChannelAtAtime params (e) returns (res)
 //@   ensures  res
 //@   modifies nothing
 
-//@ func (*endpointUDPBroadcast).oneChannelAtAtime
+//@ func (*endpointUDPBroadcast).oneChannelAtAtime params (e) returns (res)
 //@   ensures  res
 //@   modifies nothing
 
-//@ func (*endpointClient).initialize
+//@ func (*endpointClient).initialize params (e) returns (err)
 //@   ghostlog net.SplitHostPort, gomavlib.endpointClientConf.getAddress
 //@   requires e != nil && e.conf != nil
 //@   ensures  [malformed-address-refused] logRetErr(1) != nil ==> err != nil
@@ -610,17 +610,17 @@ package gomavlib
 //@   ensures  [address-checked-is-the-configured-one] logCallee(0, "gomavlib.endpointClientConf.getAddress") && logCallee(1, "net.SplitHostPort")
 //@   modifies e.ctx, e.ctxCancel, ghost:log
 
-//@ func (*endpointClient).close
+//@ func (*endpointClient).close params (e)
 //@   requires e != nil
 //@   ensures  [cancels-pending-connects-and-waits] logLen() == 1 && logCallee(0, "call:func-value")
 //@   modifies ghost:log
 
-//@ func (*endpointSerial).close
+//@ func (*endpointSerial).close params (e)
 //@   requires e != nil
 //@   ensures  logLen() == 1 && logCallee(0, "call:func-value")
 //@   modifies ghost:log
 
-//@ func (*endpointServer).initialize
+//@ func (*endpointServer).initialize params (e) returns (err)
 //@   ghostlog net.SplitHostPort, net.ResolveUDPAddr, github.com/pion/transport/v2/udp.Listen, net.Listen, gomavlib.endpointServerConf.getAddress, gomavlib.endpointServerConf.isUDP
 //@   requires e != nil && e.conf != nil
 //@   ensures  [ready-after-success] err == nil ==> e.listener != nil && e.terminate != nil
@@ -630,14 +630,14 @@ package gomavlib
 //@              (logRetBool(2) ==> logCallee(logLen()-1, "github.com/pion/transport/v2/udp.Listen")) && (!logRetBool(2) ==> logCallee(logLen()-1, "net.Listen"))
 //@   modifies e.listener, e.terminate, ghost:log
 
-//@ func (*endpointServer).close
+//@ func (*endpointServer).close params (e)
 //@   ghostlog net.Listener.Close
 //@   requires e != nil && e.terminate != nil && e.listener != nil
 //@   ensures  [wakes-the-provider-and-stops-accepting] logLen() == 2 && logIs(0, "close", "terminate") && logCallee(1, "net.Listener.Close")
 //@   modifies ghost:log
 
 // deprecated constructor: every option of the configuration reaches the node field of the same name, then Initialize
-//@ func NewNode returns (n, err)
+//@ func NewNode params (conf) returns (n, err)
 //@   ghostlog (*gomavlib.Node).Initialize
 //@   ensures  [every-option-reaches-its-field] n != nil && n.Dialect == conf.Dialect && n.InKey == conf.InKey && n.OutKey == conf.OutKey &&
 //@              n.OutVersion == conf.OutVersion && n.OutSystemID == conf.OutSystemID && n.OutComponentID == conf.OutComponentID &&
@@ -651,162 +651,162 @@ package gomavlib
 
 // ---------------------------------------------------------------- custom endpoint (C12/C13: the user's transport is closed by the endpoint, once)
 
-//@ func (*endpointCustom).provide returns (label, conn, err)
+//@ func (*endpointCustom).provide params (e) returns (label, conn, err)
 //@   requires e != nil
 //@   ensures  err == nil && conn != nil
 //@   ensures  [channel-uses-the-users-transport-without-owning-it] dynIs(conn, "*gomavlib.removeCloser") && conn.(*removeCloser).wrapped == e.rwc
 //@   modifies nothing
 
-//@ func (*removeCloser).Close
+//@ func (*removeCloser).Close params (r) returns (err)
 //@   ensures  [channel-close-does-not-close-the-users-transport] err == nil && logLen() == 0
 //@   modifies nothing
 
-//@ func (*removeCloser).Read returns (n, err)
+//@ func (*removeCloser).Read params (r, p) returns (n, err)
 //@   ghostlog io.ReadWriteCloser.Read
 //@   requires r != nil && r.wrapped != nil
 //@   ensures  logLen() == 1 && logCallee(0, "io.ReadWriteCloser.Read") && n == int(logRetInt(0, 0)) && err == logRetErr(0)
 //@   modifies p[:], ghost:log
 
-//@ func (*removeCloser).Write returns (n, err)
+//@ func (*removeCloser).Write params (r, p) returns (n, err)
 //@   ghostlog io.ReadWriteCloser.Write
 //@   requires r != nil && r.wrapped != nil
 //@   ensures  logLen() == 1 && logCallee(0, "io.ReadWriteCloser.Write") && logBytesAre(0, string(p)) && n == int(logRetInt(0, 0)) && err == logRetErr(0)
 //@   modifies ghost:log
 
-//@ func (*endpointCustom).close
+//@ func (*endpointCustom).close params (e)
 //@   requires e != nil && e.rwc != nil
 //@   ensures  [the-endpoint-closes-the-users-transport-once] logLen() == 1 && logCallee(0, "io.Closer.Close")
 //@   modifies ghost:log
 
-//@ func (*endpointCustom).initialize
+//@ func (*endpointCustom).initialize params (e) returns (err)
 //@   requires e != nil
 //@   ensures  err == nil && e.rwc == e.conf.ReadWriteCloser
 //@   modifies e.rwc
 
 // ---------------------------------------------------------------- endpoint configurations build an endpoint of their own kind
 
-//@ func (EndpointTCPServer).init returns (ep, err)
+//@ func (EndpointTCPServer).init params (conf, node) returns (ep, err)
 //@   ghostlog (*gomavlib.endpointServer).initialize
 //@   ensures  [endpoint-of-its-own-kind-bound-to-the-node] dynIs(ep, "*gomavlib.endpointServer") && ep.(*endpointServer).node == node && dynIs(ep.(*endpointServer).conf, "gomavlib.EndpointTCPServer")
 //@   ensures  [initialised-once] logLen() == 1 && logCallee(0, "(*gomavlib.endpointServer).initialize") && logArgIsPtr(0, 0, ep.(*endpointServer)) && err == logRetErr(0)
 //@   modifies ghost:log
 
-//@ func (EndpointUDPServer).init returns (ep, err)
+//@ func (EndpointUDPServer).init params (conf, node) returns (ep, err)
 //@   ghostlog (*gomavlib.endpointServer).initialize
 //@   ensures  [endpoint-of-its-own-kind-bound-to-the-node] dynIs(ep, "*gomavlib.endpointServer") && ep.(*endpointServer).node == node && dynIs(ep.(*endpointServer).conf, "gomavlib.EndpointUDPServer")
 //@   ensures  [initialised-once] logLen() == 1 && logCallee(0, "(*gomavlib.endpointServer).initialize") && logArgIsPtr(0, 0, ep.(*endpointServer)) && err == logRetErr(0)
 //@   modifies ghost:log
 
-//@ func (EndpointTCPClient).init returns (ep, err)
+//@ func (EndpointTCPClient).init params (conf, node) returns (ep, err)
 //@   ghostlog (*gomavlib.endpointClient).initialize
 //@   ensures  [endpoint-of-its-own-kind-bound-to-the-node] dynIs(ep, "*gomavlib.endpointClient") && ep.(*endpointClient).node == node && dynIs(ep.(*endpointClient).conf, "gomavlib.EndpointTCPClient")
 //@   ensures  [initialised-once] logLen() == 1 && logCallee(0, "(*gomavlib.endpointClient).initialize") && logArgIsPtr(0, 0, ep.(*endpointClient)) && err == logRetErr(0)
 //@   modifies ghost:log
 
-//@ func (EndpointUDPClient).init returns (ep, err)
+//@ func (EndpointUDPClient).init params (conf, node) returns (ep, err)
 //@   ghostlog (*gomavlib.endpointClient).initialize
 //@   ensures  [endpoint-of-its-own-kind-bound-to-the-node] dynIs(ep, "*gomavlib.endpointClient") && ep.(*endpointClient).node == node && dynIs(ep.(*endpointClient).conf, "gomavlib.EndpointUDPClient")
 //@   ensures  [initialised-once] logLen() == 1 && logCallee(0, "(*gomavlib.endpointClient).initialize") && logArgIsPtr(0, 0, ep.(*endpointClient)) && err == logRetErr(0)
 //@   modifies ghost:log
 
-//@ func (EndpointSerial).init returns (ep, err)
+//@ func (EndpointSerial).init params (conf, node) returns (ep, err)
 //@   ghostlog (*gomavlib.endpointSerial).initialize
 //@   ensures  [endpoint-of-its-own-kind-bound-to-the-node] dynIs(ep, "*gomavlib.endpointSerial") && ep.(*endpointSerial).node == node && ep.(*endpointSerial).conf == conf
 //@   ensures  [initialised-once] logLen() == 1 && logCallee(0, "(*gomavlib.endpointSerial).initialize") && logArgIsPtr(0, 0, ep.(*endpointSerial)) && err == logRetErr(0)
 //@   modifies ghost:log
 
-//@ func (EndpointCustom).init returns (ep, err)
+//@ func (EndpointCustom).init params (conf, node) returns (ep, err)
 //@   ghostlog (*gomavlib.endpointCustom).initialize
 //@   ensures  [endpoint-of-its-own-kind-bound-to-the-node] dynIs(ep, "*gomavlib.endpointCustom") && ep.(*endpointCustom).node == node && ep.(*endpointCustom).conf == conf
 //@   ensures  [initialised-once] logLen() == 1 && logCallee(0, "(*gomavlib.endpointCustom).initialize") && logArgIsPtr(0, 0, ep.(*endpointCustom)) && err == logRetErr(0)
 //@   modifies ghost:log
 
-//@ func (EndpointUDPBroadcast).init returns (ep, err)
+//@ func (EndpointUDPBroadcast).init params (conf, node) returns (ep, err)
 //@   ghostlog (*gomavlib.endpointUDPBroadcast).initialize
 //@   ensures  [endpoint-of-its-own-kind-bound-to-the-node] dynIs(ep, "*gomavlib.endpointUDPBroadcast") && ep.(*endpointUDPBroadcast).node == node && ep.(*endpointUDPBroadcast).conf == conf
 //@   ensures  [initialised-once] logLen() == 1 && logCallee(0, "(*gomavlib.endpointUDPBroadcast).initialize") && logArgIsPtr(0, 0, ep.(*endpointUDPBroadcast)) && err == logRetErr(0)
 //@   modifies ghost:log
 
 // ---------------------------------------------------------------- small accessors
-//@ func (*EventFrame).SystemID returns (id)
+//@ func (*EventFrame).SystemID params (res) returns (id)
 //@   inline
 //@   requires res != nil && res.Frame != nil
 //@   ensures  id == res.Frame.GetSystemID()
 //@   modifies nothing
 
-//@ func (*EventFrame).ComponentID returns (id)
+//@ func (*EventFrame).ComponentID params (res) returns (id)
 //@   inline
 //@   requires res != nil && res.Frame != nil
 //@   ensures  id == res.Frame.GetComponentID()
 //@   modifies nothing
 
-//@ func (*EventFrame).Message returns (m)
+//@ func (*EventFrame).Message params (res) returns (m)
 //@   inline
 //@   requires res != nil && res.Frame != nil
 //@   ensures  m == res.Frame.GetMessage()
 //@   modifies nothing
 
-//@ func (*Channel).Endpoint returns (e)
+//@ func (*Channel).Endpoint params (ch) returns (e)
 //@   inline
 //@   requires ch != nil
 //@   ensures  e == ch.endpoint
 //@   modifies nothing
 
-//@ func (EndpointTCPServer).isUDP
+//@ func (EndpointTCPServer).isUDP params (recv0) returns (res)
 //@   inline
 //@   ensures  !res
 //@   modifies nothing
 
-//@ func (EndpointTCPServer).getAddress
+//@ func (EndpointTCPServer).getAddress params (conf) returns (res)
 //@   inline
 //@   ensures  res == conf.Address
 //@   modifies nothing
 
-//@ func (EndpointUDPServer).isUDP
+//@ func (EndpointUDPServer).isUDP params (recv0) returns (res)
 //@   inline
 //@   ensures  res
 //@   modifies nothing
 
-//@ func (EndpointUDPServer).getAddress
+//@ func (EndpointUDPServer).getAddress params (conf) returns (res)
 //@   inline
 //@   ensures  res == conf.Address
 //@   modifies nothing
 
-//@ func (EndpointTCPClient).isUDP
+//@ func (EndpointTCPClient).isUDP params (recv0) returns (res)
 //@   inline
 //@   ensures  !res
 //@   modifies nothing
 
-//@ func (EndpointTCPClient).getAddress
+//@ func (EndpointTCPClient).getAddress params (conf) returns (res)
 //@   inline
 //@   ensures  res == conf.Address
 //@   modifies nothing
 
-//@ func (EndpointUDPClient).isUDP
+//@ func (EndpointUDPClient).isUDP params (recv0) returns (res)
 //@   inline
 //@   ensures  res
 //@   modifies nothing
 
-//@ func (EndpointUDPClient).getAddress
+//@ func (EndpointUDPClient).getAddress params (conf) returns (res)
 //@   inline
 //@   ensures  res == conf.Address
 //@   modifies nothing
 
 
 // ---------------------------------------------------------------- serial endpoint
-//@ func (*endpointSerial).initialize
+//@ func (*endpointSerial).initialize params (e) returns (err)
 //@   requires e != nil
 //@   ensures  [device-must-open] logLen() >= 1 && logCallee(0, "call:func-value")
 //@   ensures  [probe-is-released] err == nil ==> logLen() >= 2 && e.ctx != nil
 //@   modifies e.ctx, e.ctxCancel, ghost:log
 
-//@ func (*endpointSerial).connect returns (conn, err)
+//@ func (*endpointSerial).connect params (e) returns (conn, err)
 //@   requires e != nil
 //@   ensures  [opens-the-configured-device] logLen() == 1 && logCallee(0, "call:func-value") && logArgInt(0, 1) == int64(e.conf.Baud)
 //@   modifies ghost:log
 
 // ---------------------------------------------------------------- broadcast endpoint
-//@ func (*endpointUDPBroadcast).initialize
+//@ func (*endpointUDPBroadcast).initialize params (e) returns (err)
 //@   ghostlog net.SplitHostPort, net.ParseIP, (net.IP).To4, gomavlib.ipByBroadcastIP, fmt.Sprintf, net.ListenPacket, strconv.Atoi
 //@   requires e != nil
 //@   ensures  [malformed-broadcast-address-refused] logCallee(0, "net.SplitHostPort") && (logRetErr(0) != nil ==> err != nil && logLen() == 1)
@@ -820,7 +820,7 @@ package gomavlib
 //@   ensures  [node-kept] e.node == old(e.node) && e.conf.BroadcastAddress == old(e.conf.BroadcastAddress)
 //@   modifies *e, ghost:log
 
-//@ func (*endpointUDPBroadcast).close
+//@ func (*endpointUDPBroadcast).close params (e)
 //@   ghostlog net.PacketConn.Close
 //@   requires e != nil && e.pc != nil
 //@   ensures  logLen() == 1 && logCallee(0, "net.PacketConn.Close")
